@@ -261,12 +261,21 @@ class Interp(object):
             env.vars[a.kwarg.arg] = kwargs
         elif kwargs:
             raise Raised(TypeError("%s() got an unexpected keyword argument %r" % (name, sorted(kwargs)[0])))
-        # scope declarations
-        for sub in ast.walk(node):
-            if isinstance(sub, ast.Global):
-                env.global_names.update(sub.names)
-            elif isinstance(sub, ast.Nonlocal):
-                env.nonlocal_names.update(sub.names)
+        # scope declarations (cached on the ast node)
+        decl = getattr(node, "_vc_decl", None)
+        if decl is None:
+            g, n = set(), set()
+            for sub in ast.walk(node):
+                if isinstance(sub, ast.Global):
+                    g.update(sub.names)
+                elif isinstance(sub, ast.Nonlocal):
+                    n.update(sub.names)
+            decl = (g, n)
+            node._vc_decl = decl
+        if decl[0]:
+            env.global_names.update(decl[0])
+        if decl[1]:
+            env.nonlocal_names.update(decl[1])
 
     # ==================================================================================================
     # statements
@@ -771,10 +780,15 @@ class LazyGen(object):
 
 
 def _is_generator(node):
-    for sub in _walk_local(node):
-        if isinstance(sub, (ast.Yield, ast.YieldFrom)):
-            return True
-    return False
+    r = getattr(node, "_vc_isgen", None)
+    if r is None:
+        r = False
+        for sub in _walk_local(node):
+            if isinstance(sub, (ast.Yield, ast.YieldFrom)):
+                r = True
+                break
+        node._vc_isgen = r
+    return r
 
 
 def _walk_local(node):
